@@ -61,6 +61,13 @@ spec = the name the task is registered under and the messages for it carry; `wir
 says - as a producer that is not this Python client would, never passing through TaskiqMessage on the sending side).
 Every echo carries the task name too.
 
+The OBJECT a failing execution raises is part of the case (`exc` of a message plan = what the task function raises,
+`exc` of a message's `fail` = what the failing dependency raises; absent = a plain ValueError / BodyBase / NoResultError
+/ DepFail as before): an exception object that is falsy (__bool__ False, __len__ 0), unhashable, equal by value to
+every other instance of its class, a BaseException that is not an Exception (falsy too), an exception group (plain,
+of BaseExceptions, falsy), a falsy NoResultError subclass (EXC_KINDS).  `exc_shared`: the very same exception object is
+raised by every execution of the case that raises that kind (object reuse).  What was raised is logged (`raised`).
+
 The execution an event belongs to is carried by a ContextVar set by the harness task that calls
 `Receiver.callback` (propagated into the worker thread of sync task functions by the loop subclass) - it does
 not go through anything the properties are about."""
@@ -100,6 +107,95 @@ class DepFail(Exception):
 
 class BodyBase(BaseException):
     """a non-Exception BaseException raised by a task body"""
+
+
+class FalsyBoolError(Exception):
+    """an exception object that is falsy: __bool__ returns False"""
+
+    def __bool__(self):
+        return False
+
+
+class FalsyLenError(Exception):
+    """an exception object that is falsy because it is a sized thing of length 0 (e.g. 'the batch of failed rows')"""
+
+    def __len__(self):
+        return 0
+
+
+class UnhashableError(Exception):
+    """value-based __eq__ without __hash__: instances are unhashable"""
+
+    def __eq__(self, other):
+        return type(other) is type(self) and other.args == self.args
+
+    __hash__ = None
+
+
+class EqualError(Exception):
+    """every instance equals every other one (and hashes alike)"""
+
+    def __eq__(self, other):
+        return isinstance(other, EqualError)
+
+    def __hash__(self):
+        return 7
+
+
+class FalsyBase(BaseException):
+    """a BaseException that is not an Exception, and falsy"""
+
+    def __bool__(self):
+        return False
+
+
+class FalsyGroup(ExceptionGroup):
+    """an exception group that is a sized thing: len = number of sub-exceptions that still matter (none)"""
+
+    def derive(self, excs):
+        return FalsyGroup(self.message, excs)
+
+    def __len__(self):
+        return 0
+
+
+class FalsyNoResult(NoResultError):
+    """a client's own falsy no-result signal"""
+
+    def __bool__(self):
+        return False
+
+
+class FalsyDepFail(DepFail):
+    """the scripted failure of a dependency, as a falsy object"""
+
+    def __len__(self):
+        return 0
+
+
+# kind -> (constructor of the raised object from the payload, outcome of the task function it stands for)
+EXC_KINDS = {
+    "falsy_bool": (FalsyBoolError, "raise"),
+    "falsy_len": (FalsyLenError, "raise"),
+    "unhashable": (UnhashableError, "raise"),
+    "equal": (EqualError, "raise"),
+    "group": (lambda p: ExceptionGroup("several", [ValueError(p), KeyError("k")]), "raise"),
+    "falsy_group": (lambda p: FalsyGroup("several", [ValueError(p)]), "raise"),
+    "falsy_depfail": (FalsyDepFail, "raise"),
+    "plain_base": (BodyBase, "base"),
+    "falsy_base": (FalsyBase, "base"),
+    "base_group": (lambda p: BaseExceptionGroup("several", [BodyBase(p), ValueError(p)]), "base"),
+    "falsy_noresult": (lambda p: FalsyNoResult(), "noresult"),
+}
+
+
+def make_exc(kind, payload, shared):
+    """the object to raise: a fresh one, or (shared) the one object of that kind every execution of the case raises"""
+    if shared:
+        if kind not in R.shared_excs:
+            R.shared_excs[kind] = EXC_KINDS[kind][0]("shared")
+        return R.shared_excs[kind]
+    return EXC_KINDS[kind][0](payload)
 
 
 class UserCfg:
@@ -241,6 +337,7 @@ class Run:
         self.scratch = {}       # exec -> object it marked for the time of its task function (`valtmp`)
         self.broker = None
         self.sending = set()    # executions whose delivery is being handed to the broker's real kick()
+        self.shared_excs = {}   # kind -> the one exception object of that kind (`exc_shared`)
 
     def ev(self, *a):
         self.log.append(list(a))
@@ -428,7 +525,11 @@ def h_fail(node, tok, when):
     f = R.plan(e).get("fail")
     if f is not None and f["node"] == node and f.get("when", "early") == when:
         R.ev("fail", e, node, tok)
-        raise DepFail("dependency %d fails" % node)
+        exc = DepFail("dependency %d fails" % node)
+        if f.get("exc"):
+            exc = make_exc(f["exc"], "dependency %d fails" % node, bool(f.get("exc_shared")))
+        R.ev("raised", e, type(exc).__name__, "dep")
+        raise exc
 
 
 def next_pause(e):
@@ -527,14 +628,22 @@ def h_body_sync(t, tok, kw, ctx, vals, pv=NOPV):
 
 def h_finish(e, plan, payload):
     o = plan.get("outcome", "return")
+    exc = None
+    if o != "return" and plan.get("exc"):
+        if EXC_KINDS[plan["exc"]][1] != o:
+            raise RuntimeError("harness: exception kind %r does not stand for outcome %r" % (plan["exc"], o))
+        exc = make_exc(plan["exc"], payload, bool(plan.get("exc_shared")))
+    elif o == "raise":
+        exc = ValueError(payload)
+    elif o == "base":
+        exc = BodyBase(payload)
+    elif o == "noresult":
+        exc = NoResultError()
     R.ev("task_end", e, o)
-    if o == "raise":
-        raise ValueError(payload)
-    if o == "base":
-        raise BodyBase(payload)
-    if o == "noresult":
-        raise NoResultError()
-    return payload
+    if exc is None:
+        return payload
+    R.ev("raised", e, type(exc).__name__, "task")
+    raise exc
 
 
 # --------------------------------------------------------------------------- generated code
@@ -597,12 +706,27 @@ def task_src(t, spec):
 
 
 # --------------------------------------------------------------------------- recording collaborators
+def payload_of(err):
+    """the payload the stored exception carries (the task function's, see h_finish); for an exception group that of
+    its first sub-exception that carries one"""
+    if err is None:
+        return None
+    if err.args and isinstance(err.args[0], dict):
+        return err.args[0]
+    if isinstance(err, BaseExceptionGroup):
+        for sub in err.exceptions:
+            got = payload_of(sub)
+            if got is not None:
+                return got
+    return None
+
+
 def summarize(result):
     err = result.error
     rv = result.return_value
     return {"is_err": bool(result.is_err), "ret": rv if isinstance(rv, (dict, type(None))) else repr(rv)[:80],
             "err": None if err is None else type(err).__name__,
-            "err_payload": err.args[0] if err is not None and err.args and isinstance(err.args[0], dict) else None,
+            "err_payload": payload_of(err),
             "who": result.labels.get("who") if isinstance(result.labels, dict) else None,
             "labels": jsonable(result.labels) if isinstance(result.labels, dict) else repr(result.labels)[:60]}
 
